@@ -1118,3 +1118,247 @@ func ruleWSLengthField(c *Ctx) {
 		c.und("stores", fn.Decl.Pos(), "no store to the second header byte found")
 	}
 }
+
+// R17.inverse-trig-domain
+func init() {
+	register(&Rule{ID: "R17.inverse-trig-domain", Props: []string{"C17", "C13"}, Floor: 2,
+		Text: "a distance that goes into a reply is a number: in the packages that compute the distances of NEARBY (internal/collection), every argument of math.Asin / math.Acos is provably at most 1 in magnitude — a product of sines and cosines (or of locals assigned once from them), or math.Sqrt of a value that is clamped on every path from its definitions to the call (an `if v > 1 { v = 1 }` whose test lies on every such path, or math.Min(v, 1)). Rounding takes the haversine term of (nearly) antipodal points past 1; the arcsine is then NaN, which is printed as \"distance\":NaN (not JSON) and compares false with every radius. A lower bound (the square root of a negative term) is not decided",
+		Run:  ruleInverseTrigDomain})
+}
+
+func ruleInverseTrigDomain(c *Ctx) {
+	n := 0
+	for _, fn := range c.AllFuncs("internal/collection") {
+		if fn.Decl.Body == nil {
+			continue
+		}
+		info := fn.Info()
+		isMath := func(call *ast.CallExpr, names ...string) bool {
+			f := callee(info, call)
+			if f == nil || f.Pkg() == nil || f.Pkg().Path() != "math" {
+				return false
+			}
+			for _, nm := range names {
+				if f.Name() == nm {
+					return true
+				}
+			}
+			return false
+		}
+		var sites []*ast.CallExpr
+		ast.Inspect(fn.Decl.Body, func(x ast.Node) bool {
+			if call, ok := x.(*ast.CallExpr); ok && isMath(call, "Asin", "Acos") && len(call.Args) == 1 {
+				sites = append(sites, call)
+			}
+			return true
+		})
+		if len(sites) == 0 {
+			continue
+		}
+		// the body the call sits in (a literal has its own graph)
+		graphs := map[*ast.BlockStmt]*FlowGraph{}
+		bodyOf := func(n ast.Node) *ast.BlockStmt {
+			if lit := enclosingFuncLit(c.Program, n); lit != nil {
+				return lit.Body
+			}
+			return fn.Decl.Body
+		}
+		graphOf := func(b *ast.BlockStmt) *FlowGraph {
+			if graphs[b] == nil {
+				graphs[b] = newFlowGraph(info, b)
+			}
+			return graphs[b]
+		}
+		isOne := func(e ast.Expr) bool {
+			tv, ok := info.Types[e]
+			if !ok || tv.Value == nil {
+				return false
+			}
+			v, ok := constInt64(tv)
+			return ok && v == 1
+		}
+		var mag1 func(e ast.Expr, depth int) bool
+		var upper1 func(e ast.Expr, use ast.Node, depth int) bool
+		onceDef := func(id *ast.Ident, body *ast.BlockStmt) ast.Expr {
+			o := info.ObjectOf(id)
+			if o == nil || countAssignments(info, body, o) != 1 {
+				return nil
+			}
+			var def ast.Expr
+			ast.Inspect(body, func(x ast.Node) bool {
+				if as, ok := x.(*ast.AssignStmt); ok && len(as.Lhs) == len(as.Rhs) {
+					for i, l := range as.Lhs {
+						if lid, ok := ast.Unparen(l).(*ast.Ident); ok && info.ObjectOf(lid) == o {
+							def = as.Rhs[i]
+						}
+					}
+				}
+				return true
+			})
+			return def
+		}
+		mag1 = func(e ast.Expr, depth int) bool {
+			e = ast.Unparen(e)
+			if depth > 6 {
+				return false
+			}
+			switch x := e.(type) {
+			case *ast.CallExpr:
+				if isMath(x, "Sin", "Cos") {
+					return true
+				}
+				if isMath(x, "Sqrt") && len(x.Args) == 1 {
+					return upper1(x.Args[0], x, depth+1)
+				}
+			case *ast.UnaryExpr:
+				if x.Op == token.SUB || x.Op == token.ADD {
+					return mag1(x.X, depth+1)
+				}
+			case *ast.BinaryExpr:
+				if x.Op == token.MUL {
+					return mag1(x.X, depth+1) && mag1(x.Y, depth+1)
+				}
+			case *ast.Ident:
+				if def := onceDef(x, bodyOf(x)); def != nil {
+					return mag1(def, depth+1)
+				}
+				// s, c := math.Sincos(x)
+				if o := info.ObjectOf(x); o != nil && countAssignments(info, bodyOf(x), o) == 1 {
+					bounded := false
+					ast.Inspect(bodyOf(x), func(y ast.Node) bool {
+						if as, ok := y.(*ast.AssignStmt); ok && len(as.Rhs) == 1 && len(as.Lhs) == 2 {
+							if call, ok := ast.Unparen(as.Rhs[0]).(*ast.CallExpr); ok && isMath(call, "Sincos") {
+								for _, l := range as.Lhs {
+									if lid, ok := ast.Unparen(l).(*ast.Ident); ok && info.ObjectOf(lid) == o {
+										bounded = true
+									}
+								}
+							}
+						}
+						return true
+					})
+					return bounded
+				}
+			}
+			return false
+		}
+		// upper1: the value is at most 1 where it is used
+		upper1 = func(e ast.Expr, use ast.Node, depth int) bool {
+			e = ast.Unparen(e)
+			if depth > 6 {
+				return false
+			}
+			if mag1(e, depth+1) {
+				return true
+			}
+			switch x := e.(type) {
+			case *ast.CallExpr:
+				if isMath(x, "Min") && len(x.Args) == 2 && (isOne(x.Args[0]) || isOne(x.Args[1])) {
+					return true
+				}
+			case *ast.Ident:
+				o := info.ObjectOf(x)
+				if o == nil {
+					return false
+				}
+				body := bodyOf(x)
+				fg := graphOf(body)
+				// clamp tests: the condition v > K (K >= 1 … we require K == 1) of an if whose body assigns v = 1,
+				// and assignments v = math.Min(v, 1)
+				isClampNode := func(nd ast.Node) bool {
+					hit := false
+					ast.Inspect(body, func(y ast.Node) bool {
+						ifs, ok := y.(*ast.IfStmt)
+						if !ok || ifs.Cond != nd {
+							return true
+						}
+						be, ok := ast.Unparen(ifs.Cond).(*ast.BinaryExpr)
+						if !ok {
+							return true
+						}
+						var vside, kside ast.Expr
+						switch be.Op {
+						case token.GTR, token.GEQ:
+							vside, kside = be.X, be.Y
+						case token.LSS, token.LEQ:
+							vside, kside = be.Y, be.X
+						default:
+							return true
+						}
+						vid, ok := ast.Unparen(vside).(*ast.Ident)
+						if !ok || info.ObjectOf(vid) != o || !isOne(kside) {
+							return true
+						}
+						for _, st := range ifs.Body.List {
+							if as, ok := st.(*ast.AssignStmt); ok && len(as.Lhs) == 1 && len(as.Rhs) == 1 {
+								if lid, ok := ast.Unparen(as.Lhs[0]).(*ast.Ident); ok && info.ObjectOf(lid) == o && isOne(as.Rhs[0]) {
+									hit = true
+								}
+							}
+						}
+						return true
+					})
+					if as, ok := nd.(*ast.AssignStmt); ok && len(as.Lhs) == 1 && len(as.Rhs) == 1 {
+						if lid, ok := ast.Unparen(as.Lhs[0]).(*ast.Ident); ok && info.ObjectOf(lid) == o {
+							if call, ok := ast.Unparen(as.Rhs[0]).(*ast.CallExpr); ok && isMath(call, "Min") && len(call.Args) == 2 && (isOne(call.Args[0]) || isOne(call.Args[1])) {
+								hit = true
+							}
+						}
+					}
+					return hit
+				}
+				// every definition of v (other than the clamp's own v = 1) reaches the use only through a clamp
+				useLoc := fg.LocOfOuter(use)
+				if !useLoc.Valid() {
+					return false
+				}
+				defs := 0
+				for _, b := range fg.G.Blocks {
+					if !fg.Reachable(b) {
+						continue
+					}
+					for i, nd := range b.Nodes {
+						as, ok := nd.(*ast.AssignStmt)
+						if !ok {
+							continue
+						}
+						for j, l := range as.Lhs {
+							lid, ok := ast.Unparen(l).(*ast.Ident)
+							if !ok || info.ObjectOf(lid) != o {
+								continue
+							}
+							if len(as.Lhs) == len(as.Rhs) && (isOne(as.Rhs[j]) || mag1(as.Rhs[j], depth+1)) {
+								continue // v = 1, or a bounded value
+							}
+							if isClampNode(nd) {
+								continue
+							}
+							defs++
+							bypass, _ := fg.Reach(PathQuery{From: Loc{b, i, nd},
+								Target: func(l Loc) bool { return l.Block == useLoc.Block && l.Idx == useLoc.Idx },
+								Avoid:  func(l Loc) bool { return isClampNode(l.Block.Nodes[l.Idx]) }})
+							if bypass {
+								return false
+							}
+						}
+					}
+				}
+				return defs > 0
+			}
+			return false
+		}
+		for k, call := range sites {
+			n++
+			key := fmt.Sprintf("%s→%s", funcName(fn.Obj), exprStr(call))
+			if len(key) > 140 {
+				key = fmt.Sprintf("%s→%s#%d", funcName(fn.Obj), exprStr(call.Fun), k+1)
+			}
+			c.check(mag1(call.Args[0], 0), key, call.Pos(), "the argument is at most 1 in magnitude (bounded factors, or a clamped term under the square root)",
+				"the argument of "+exprStr(call.Fun)+" is not shown to stay within [-1, 1]: rounding can take a haversine term past 1 for (nearly) antipodal points, the result is then NaN — printed as \"distance\":NaN, which is not JSON, and compared false with every radius, so a NEARBY with a radius returns the antipodal object")
+		}
+	}
+	if n == 0 {
+		c.und("sites", 0, "no inverse trigonometric call in internal/collection")
+	}
+	c.stat("inverse_trig_sites", n)
+}
